@@ -133,11 +133,12 @@ NEW_INV = ["0 <= _i1", "_i1 <= len(terms_of(self))", "start == psum(new_widths(s
            "forall(0, len(factors_with_new_levels), lambda a: forall(0, len(factors_with_new_levels), lambda b: "
            "implies(a != b, factors_with_new_levels[a] != factors_with_new_levels[b])))"]
 REG.contract(M + "GroupEffectsMatrix.__init__", params={"terms": "list[ref:Term]"}, tags=["C17"],
+             # one dict entry per term: the names must be distinct (Model's term lists are duplicate-free by name: C02)
+             requires=["forall(0, len(terms), lambda i: forall(0, len(terms), lambda j: implies(i != j, terms[i].name != terms[j].name)))"],
              modifies=["self.terms", "self.data", "self.env", "self.design_matrix", "self.slices", "self.evaluated",
                        "self.factors_with_new_levels"],
              ensures=["len(terms_of(self)) == len(terms)", "forall(0, len(terms), lambda k: terms_of(self)[k] == terms[k])",
-                      "not self.evaluated", "is_fresh(self.slices)"],
-             note="ASSUMED: dict comprehension {term.name: term for term in terms} keeps one entry per distinct name, in order")
+                      "not self.evaluated", "is_fresh(self.slices)"])
 REG.contract(M + "GroupEffectsMatrix.evaluate_new_data", params={"data": "any"}, returns=M + "GroupEffectsMatrix",
              tags=["C10", "C17"],
              requires=WF + ["self.evaluated",
@@ -153,10 +154,11 @@ REG.contract(M + "GroupEffectsMatrix.evaluate_new_data", params={"data": "any"},
              loops={1: Loop(invariant=NEW_INV, havoc={"matrices_to_stack": "arrseq", "factors_with_new_levels": "list[str]"},
                             modifies=[])})
 REG.contract(M + "CommonEffectsMatrix.__init__", params={"terms": "list[ref:Term]"}, tags=["C17"],
+             # one dict entry per term: the names must be distinct (Model's term lists are duplicate-free by name: C02)
+             requires=["forall(0, len(terms), lambda i: forall(0, len(terms), lambda j: implies(i != j, terms[i].name != terms[j].name)))"],
              modifies=["self.terms", "self.data", "self.env", "self.design_matrix", "self.slices", "self.evaluated"],
              ensures=["len(terms_of(self)) == len(terms)", "forall(0, len(terms), lambda k: terms_of(self)[k] == terms[k])",
-                      "not self.evaluated", "is_fresh(self.slices)"],
-             note="ASSUMED: dict comprehension {term.name: term for term in terms} keeps one entry per distinct name, in order")
+                      "not self.evaluated", "is_fresh(self.slices)"])
 REG.contract(M + "CommonEffectsMatrix.evaluate_new_data", params={"data": "any"}, returns=M + "CommonEffectsMatrix",
              tags=["C17", "C06"],
              requires=WF + ["self.evaluated",
@@ -171,10 +173,11 @@ REG.contract(M + "CommonEffectsMatrix.evaluate_new_data", params={"data": "any"}
                       "result.design_matrix.shape[0] == terms_of(self)[0].eval_new_data(data).shape[0]"])
 
 FUNCTIONS = [M + "CommonEffectsMatrix.evaluate_new_data", M + "CommonEffectsMatrix.evaluate", M + "GroupEffectsMatrix.evaluate", M + "CommonEffectsMatrix.__getitem__",
-             M + "GroupEffectsMatrix.__getitem__", M + "GroupEffectsMatrix.evaluate_new_data"]
+             M + "GroupEffectsMatrix.__getitem__", M + "GroupEffectsMatrix.evaluate_new_data",
+             M + "CommonEffectsMatrix.__init__", M + "GroupEffectsMatrix.__init__"]
 
 
-ASSUMPTIONS = ['ASSUMED: CommonEffectsMatrix.__init__ / GroupEffectsMatrix.__init__ build {term.name: term} in order (dict comprehension not in the verified subset)',
+ASSUMPTIONS = ['a dict comprehension {t.name: t for t in L} with pairwise distinct keys (an obligation) is the insertion-ordered dict of L',
                'term objects are read-only references: .name, .data, .factor.name and eval_new_data(data) are functions of the object (and the frame)',
                'np.column_stack of a list of arrays: widths add up and blocks are laid out in order (prefix sums); lemma psum_prefix is checked in Lean (lemmas/psum_prefix.lean)',
                'the key order of the slices dict is not modelled (only the mapping name -> slice)']
